@@ -24,6 +24,8 @@ class Ctx:
         self.manual = []  # statuses waiting for the environment
         self.statuses = []
         self.devices = {}
+        self.raised = []  # exception objects raised by device operations (fault plan)
+        self.status_excs = []  # exception objects carried by failed statuses
 
     def op(self, dev, op, *args, fallible=True):
         i = self.nops
@@ -34,7 +36,9 @@ class Ctx:
             kind = self.faults.get(i)
             if kind == "raise":
                 self.timeline.append(("fault", i, "raise", dev.name, op))
-                raise DeviceError(f"fault@{i}:{dev.name}.{op}")
+                exc = DeviceError(f"fault@{i}:{dev.name}.{op}")
+                self.raised.append(exc)
+                raise exc
             if kind in ("fail", "fail_late"):
                 self.timeline.append(("fault", i, kind, dev.name, op))
                 return kind
@@ -82,6 +86,7 @@ class FakeStatus:
         self._success = ok
         if not ok:
             self._exc = DeviceError(f"status-failed:{self.label}")
+            self.ctx.status_excs.append(self._exc)
         self.ctx.timeline.append(("status", self.label, ok))
         if self.on_finish is not None:
             self.on_finish(ok)
